@@ -219,17 +219,40 @@ def strip_lean_comments(src):
     return "".join(out)
 
 
-def forbidden_scan():
+_IMPORT_RX = re.compile(r"^\s*import\s+(PfVerif(?:\.\w+)+)", re.M)
+
+
+def import_closure(module):
+    """transitive closure of `import PfVerif.*` starting from a module name -> list of file paths"""
+    seen, todo, files = set(), [module], []
+    while todo:
+        m = todo.pop()
+        if m in seen:
+            continue
+        seen.add(m)
+        p = os.path.join(LEAN, *m.split(".")) + ".lean"
+        if not os.path.exists(p):
+            continue
+        files.append(p)
+        for im in _IMPORT_RX.findall(open(p).read()):
+            todo.append(im)
+    return files
+
+
+def forbidden_scan(modules):
+    """forbidden tokens (outside comments/strings) in everything the given modules depend on"""
     hits = []
-    for root, _, files in os.walk(os.path.join(LEAN, "PfVerif")):
-        for f in files:
-            if f.endswith(".lean"):
-                p = os.path.join(root, f)
-                src = strip_lean_comments(open(p).read())
-                for rx, name in _FORBIDDEN:
-                    for m in rx.finditer(src):
-                        line = src.count("\n", 0, m.start()) + 1
-                        hits.append(f"{os.path.relpath(p, LEAN)}:{line}: {name}")
+    files = []
+    for m in modules:
+        for p in import_closure(m):
+            if p not in files:
+                files.append(p)
+    for p in files:
+        src = strip_lean_comments(open(p).read())
+        for rx, name in _FORBIDDEN:
+            for m in rx.finditer(src):
+                line = src.count("\n", 0, m.start()) + 1
+                hits.append(f"{os.path.relpath(p, LEAN)}:{line}: {name}")
     return hits
 
 
@@ -437,7 +460,7 @@ class Ctx:
         if not ok:
             self.ties_broken.append({"kind": "lean-build", "detail": self.lean_log[-1500:]})
             return False
-        bad = forbidden_scan()
+        bad = forbidden_scan([f"PfVerif.Props.{prop}", "PfVerif.Driver.All"])
         if bad:
             self.ties_broken.append({"kind": "lean-forbidden-token", "detail": bad[:20]})
         ok, thms, log = audit_module(prop)
